@@ -29,18 +29,36 @@ structure Case where
   A : List Msg
   B : List Msg
 
-def parseCase (line : String) : Option Case :=
-  match splitWs line with
-  | ["done", ops, inc, msg, att, to, a, b] => do
-    let operators ← parseSmall ops 1000
+def parseAttempt (operators : List Nat) : List String → Option Case
+  | [inc, msg, att, to, a, b] => do
     let included ← parseSmall inc 255
     let message ← canonNat? msg big
     let attempt ← canonNat? att big
     let timeout ← canonNat? to big
     let A ← parseMsgs a
     let B ← parseMsgs b
-    if operators.isEmpty || operators.length > 255 || A.length + B.length > 400 then none
+    if A.length + B.length > 400 then none
     else pure ⟨⟨operators, included, message, attempt, timeout⟩, A, B⟩
+  | _ => none
+
+def chunks6 : List String → Option (List (List String))
+  | [] => some []
+  | a :: b :: c :: d :: e :: f :: rest => do pure ([a, b, c, d, e, f] :: (← chunks6 rest))
+  | _ => none
+
+/-- one op line = the attempts run, in order, on ONE signingDoneCheck (`listen` starts every
+    attempt from an empty set of confirmations, so the attempts are independent in the model) -/
+def parseCases (line : String) : Option (List Case) :=
+  match splitWs line with
+  | "done" :: ops :: rest => do
+    let operators ← parseSmall ops 1000
+    if operators.isEmpty || operators.length > 255 || rest.length != 6 then none
+    else pure [← parseAttempt operators rest]
+  | "dones" :: ops :: rest => do
+    let operators ← parseSmall ops 1000
+    let cs ← chunks6 rest
+    if operators.isEmpty || operators.length > 255 || cs.isEmpty || cs.length > 8 then none
+    else cs.mapM (parseAttempt operators)
   | _ => none
 
 def showOutcome : Outcome → String
@@ -49,11 +67,12 @@ def showOutcome : Outcome → String
   | .success sig eb => s!"ok.{if sig == 0 then "nil" else toString sig}.{eb}"
 
 def model (line : String) : String :=
-  match parseCase line with
+  match parseCases line with
   | none => "bad-op"
-  | some c =>
-    let r := scenario .fixed c.p c.A c.B
-    s!"{showOutcome r.1}/{r.2}"
+  | some cs =>
+    ";".intercalate (cs.map fun c =>
+      let r := scenario .fixed c.p c.A c.B
+      s!"{showOutcome r.1}/{r.2}")
 
 def parseOutcome (s : String) : Option Outcome :=
   match s.splitOn "." with
@@ -64,17 +83,24 @@ def parseOutcome (s : String) : Option Outcome :=
     pure (.success sg (← eb.toNat?))
   | _ => none
 
+def monitorOne (c : Case) (obs : String) : String :=
+  match obs.splitOn "/" with
+  | [o, n] =>
+    match parseOutcome o, n.toNat? with
+    | some out, some cnt =>
+      if holds c.p (c.A ++ c.B) out cnt then "ok"
+      else "FAIL signature-reported-without-every-included-member-or-excluded-member-recorded"
+    | _, _ => "FAIL unparsable-observation"
+  | _ => "FAIL unparsable-observation"
+
 def monitor (op obs : String) : String :=
-  match parseCase op with
+  match parseCases op with
   | none => if obs == "bad-op" then "ok" else "FAIL bad-op-accepted"
-  | some c =>
-    match obs.splitOn "/" with
-    | [o, n] =>
-      match parseOutcome o, n.toNat? with
-      | some out, some cnt =>
-        if holds c.p (c.A ++ c.B) out cnt then "ok"
-        else "FAIL signature-reported-without-every-included-member-or-excluded-member-recorded"
-      | _, _ => "FAIL unparsable-observation"
-    | _ => "FAIL unparsable-observation"
+  | some cs =>
+    let os := obs.splitOn ";"
+    if os.length != cs.length then "FAIL unparsable-observation" else
+    match ((cs.zip os).map fun (c, o) => monitorOne c o).find? (· != "ok") with
+    | some f => f
+    | none => "ok"
 
 def main (args : List String) : IO UInt32 := driverMain model monitor args
